@@ -229,10 +229,16 @@ impl RoutingThread {
                     .await;
             }
             Message::KeyListUpdate(key_list) => {
-                self.network
+                if let Err(error) = self
+                    .network
                     .handle_received_key_list(peer_index, key_list)
                     .await
-                    .unwrap();
+                {
+                    warn!(
+                        "key list from peer : {:?} was not accepted : {:?}",
+                        peer_index, error
+                    );
+                }
             }
             Message::Block(_) => {
                 // blocks are announced by their header hash and fetched, never pushed as messages
